@@ -355,6 +355,9 @@ pub struct Case {
     /// keepalive timeout of the sides with `keepalive`, in ticks (0 = none)
     #[serde(default)]
     pub keepalive_timeout_ticks: u8,
+    /// write-behind transport on that side: output buffer of that many messages (see `Dir::wb_cap`)
+    #[serde(default)]
+    pub write_behind: [Option<u8>; 2],
 }
 
 impl Default for BindPolicy {
@@ -385,6 +388,7 @@ impl Default for Case {
             bind_cancel: None,
             flush_waits: [false, false],
             keepalive_timeout_ticks: 0,
+            write_behind: [None, None],
         }
     }
 }
